@@ -1,1 +1,706 @@
+(* C18/Proofs.v — invariants and lemmas for the upgrade model. *)
+From Coq Require Import ZifyBool ZifyNat ZifyN.
 From OV Require Import Common.Base C18.Model.
+
+Ltac inv H := inversion H; subst; clear H.
+Ltac splits := repeat match goal with |- _ /\ _ => split end.
+Arguments swap_artifact : simpl never.
+Arguments set_phase : simpl never.
+Arguments rollback_flow : simpl never.
+Arguments do_snapshot : simpl never.
+Arguments auto_rollback : simpl never.
+Arguments post_swap : simpl never.
+Arguments prune : simpl never.
+Arguments vpp_seq : simpl never.
+Arguments seq_oc : simpl never.
+Arguments install_ob : simpl never.
+
+(* ------------------------------------------------------------------ basic facts *)
+Lemma upd_same {A} (f : N -> A) k x : upd f k x k = x.
+Proof. unfold upd. now rewrite N.eqb_refl. Qed.
+Lemma upd_other {A} (f : N -> A) k x q : q <> k -> upd f k x q = f q.
+Proof. unfold upd. intros H. destruct (N.eqb_spec q k); [contradiction|reflexivity]. Qed.
+
+Lemma file_eqb_refl f : file_eqb f f = true.
+Proof. destruct f; simpl; rewrite ?N.eqb_refl; reflexivity. Qed.
+Lemma ofile_eqb_refl f : ofile_eqb f f = true.
+Proof. destruct f; simpl; [apply file_eqb_refl|reflexivity]. Qed.
+Lemma file_eqb_eq a b : file_eqb a b = true -> a = b.
+Proof.
+  destruct a, b; simpl; try discriminate; intros H.
+  - apply andb_prop in H as [H1 H2]. apply N.eqb_eq in H1, H2. now subst.
+  - apply N.eqb_eq in H. now subst.
+  - reflexivity.
+Qed.
+Lemma ofile_eqb_eq a b : ofile_eqb a b = true -> a = b.
+Proof. destruct a, b; simpl; try discriminate; intros H; [f_equal; now apply file_eqb_eq|reflexivity]. Qed.
+
+Lemma nodupb_NoDup l : nodupb l = true -> NoDup l.
+Proof.
+  induction l as [|x r IH]; simpl; intros H; [constructor|].
+  apply andb_prop in H as [H1 H2]. constructor; [|auto].
+  intros Hin. apply negb_true_iff in H1.
+  assert (existsb (N.eqb x) r = true) by (apply existsb_exists; exists x; split; [exact Hin|apply N.eqb_refl]).
+  congruence.
+Qed.
+
+(* ------------------------------------------------------------------ the frame:
+   the parts of the world a later rollback relies on and that no swap / restore /
+   phase change touches *)
+Definition frame (w : world) :=
+  (option_map j_from (jr w), option_map j_to (jr w), snaps w, g_base w).
+
+Lemma frame_set_phase w ph : frame (set_phase w ph) = frame w.
+Proof. unfold set_phase, frame. destruct (jr w) eqn:E; simpl; rewrite ?E; reflexivity. Qed.
+Lemma frame_set_fs w f : frame (set_fs w f) = frame w. Proof. reflexivity. Qed.
+Lemma frame_set_obst w o : frame (set_obst w o) = frame w. Proof. reflexivity. Qed.
+Lemma frame_set_cur w c : frame (set_cur w c) = frame w. Proof. reflexivity. Qed.
+Lemma frame_set_ginst w c : frame (set_ginst w c) = frame w. Proof. reflexivity. Qed.
+Lemma frame_restore_curm v w d : frame (restore_curm v w d) = frame w.
+Proof. unfold restore_curm. destruct (v_curm_fix v); [destruct (s_curm d)|]; reflexivity. Qed.
+Lemma frame_restore_ginst w : frame (restore_ginst w) = frame w.
+Proof. unfold restore_ginst. destruct (g_base w) as [[[[] ?] ?]|] eqn:E; reflexivity. Qed.
+
+Lemma fs_set_phase w ph : fs (set_phase w ph) = fs w.
+Proof. unfold set_phase. destruct (jr w) eqn:E; reflexivity. Qed.
+Lemma fs_restore_curm v w d : fs (restore_curm v w d) = fs w.
+Proof. unfold restore_curm. destruct (v_curm_fix v); [destruct (s_curm d)|]; reflexivity. Qed.
+Lemma fs_restore_ginst w : fs (restore_ginst w) = fs w.
+Proof. unfold restore_ginst. destruct (g_base w) as [[[[] ?] ?]|] eqn:E; reflexivity. Qed.
+Lemma obst_set_phase w ph : obst (set_phase w ph) = obst w.
+Proof. unfold set_phase. destruct (jr w) eqn:E; reflexivity. Qed.
+Lemma cur_set_phase w ph : cur (set_phase w ph) = cur w.
+Proof. unfold set_phase. destruct (jr w) eqn:E; reflexivity. Qed.
+Lemma ginst_set_phase w ph : g_inst (set_phase w ph) = g_inst w.
+Proof. unfold set_phase. destruct (jr w) eqn:E; reflexivity. Qed.
+
+(* ------------------------------------------------------------------ SwapArtifact *)
+Lemma swap_artifact_frame w src p m w' b :
+  swap_artifact w src p m = (w', b) -> frame w' = frame w /\ cur w' = cur w /\ g_inst w' = g_inst w.
+Proof.
+  unfold swap_artifact. intros H.
+  destruct src; [destruct (obst w p)|]; [inv H; auto| |inv H; auto].
+  destruct (new_mode m); [|inv H; auto].
+  destruct (fs w p) as [[| |]|]; inv H; auto.
+Qed.
+
+Lemma swap_artifact_ok w src p m w' :
+  swap_artifact w src p m = (w', true) ->
+  exists c mm, src = Some c /\ new_mode m = Some mm /\
+               fs w' = upd (fs w) p (Some (Reg c mm)) /\ obst w' = obst w.
+Proof.
+  unfold swap_artifact. intros H.
+  destruct src as [c|]; [destruct (obst w p)|]; [inv H| |inv H].
+  destruct (new_mode m) as [mm|]; [|inv H].
+  exists c, mm. destruct (fs w p) as [[| |]|]; inv H; auto.
+Qed.
+
+(* a swap that fails leaves every artifact as it was *)
+Lemma swap_artifact_fail_fs w src p m w' :
+  swap_artifact w src p m = (w', false) -> fs w' = fs w.
+Proof.
+  unfold swap_artifact. intros H.
+  destruct src; [destruct (obst w p)|]; [inv H; auto| |inv H; auto].
+  destruct (new_mode m); [|inv H; auto].
+  destruct (fs w p) as [[| |]|]; inv H; auto.
+Qed.
+
+(* ------------------------------------------------------------------ swap loop *)
+Lemma swap_loop_frame arts : forall w w' b,
+  swap_loop w arts = (w', b) -> frame w' = frame w /\ cur w' = cur w /\ g_inst w' = g_inst w.
+Proof.
+  induction arts as [|a r IH]; simpl; intros w w' b H; [inv H; auto|].
+  destruct (swap_artifact _ _ _ _) as [w2 ok] eqn:E.
+  apply swap_artifact_frame in E as (E1 & E2 & E3).
+  rewrite frame_set_phase in E1. rewrite cur_set_phase in E2. rewrite ginst_set_phase in E3.
+  destruct ok.
+  - apply IH in H as (H1 & H2 & H3).
+    rewrite frame_set_phase in H1. rewrite cur_set_phase in H2. rewrite ginst_set_phase in H3.
+    repeat split; congruence.
+  - inv H. auto.
+Qed.
+
+Lemma swap_loop_ok arts : forall w w',
+  swap_loop w arts = (w', true) -> NoDup (map a_path arts) ->
+  (forall a, In a arts -> exists mm, new_mode (a_mode a) = Some mm /\
+                                     fs w' (a_path a) = Some (Reg (a_content a) mm)) /\
+  (forall p, ~ In p (map a_path arts) -> fs w' p = fs w p).
+Proof.
+  induction arts as [|a r IH]; simpl; intros w w' H Hnd.
+  - inv H. split; [intros ? []|auto].
+  - destruct (swap_artifact _ _ _ _) as [w2 ok] eqn:E. destruct ok; [|discriminate].
+    apply swap_artifact_ok in E as (c & mm & Hc & Hm & Hfs & _). inv Hc.
+    apply NoDup_cons_iff in Hnd as [Hn1 Hn2]. apply IH in H as [I1 I2]; [|assumption].
+    rewrite fs_set_phase, Hfs, fs_set_phase in I2.
+    split.
+    + intros a' [<-|Hin]; [|auto].
+      exists mm. split; [assumption|]. rewrite I2 by assumption. apply upd_same.
+    + intros p Hp. rewrite I2 by tauto. apply upd_other. intros ->. tauto.
+Qed.
+
+(* ------------------------------------------------------------------ snapshot *)
+Definition kind_matches (v : variant) (bak : path -> option content) (p : path) (e : entry) (f : option file) : Prop :=
+  match f with
+  | None => e_kind e = EAbsent
+  | Some (Sym t) => e_kind e = ESym t
+  | Some (Reg c m) => e_kind e = EReg (rec_mode v m) /\ bak p = Some c
+  | Some Dir => False
+  end.
+
+Definition entries_ok (v : variant) (bak : path -> option content) (es : list entry)
+           (base : list (path * option file)) : Prop :=
+  (forall e, In e es -> exists f, In (e_path e, f) base /\ kind_matches v bak (e_path e) e f) /\
+  (forall p f, In (p, f) base -> exists e, In e es /\ e_path e = p).
+
+Definition functional (l : list (path * option file)) : Prop :=
+  forall p f f', In (p, f) l -> In (p, f') l -> f = f'.
+
+Lemma snap_loop_bak v f arts : forall bak bak' r,
+  snap_loop v f bak arts = (bak', r) ->
+  forall q, bak' q = bak q \/ exists c m, f q = Some (Reg c m) /\ bak' q = Some c.
+Proof.
+  induction arts as [|a r IH]; simpl; intros bak bak' res H q; [inv H; auto|].
+  destruct (f (a_path a)) as [[c m|t|]|] eqn:Ef.
+  - destruct (snap_loop v f (upd bak (a_path a) (Some c)) r) as [b es] eqn:E. inv H.
+    destruct (IH _ _ _ E q) as [Hq|Hq]; [|auto].
+    destruct (N.eqb_spec q (a_path a)) as [->|Hne].
+    + right. exists c, m. rewrite Hq, upd_same. auto.
+    + left. rewrite Hq. now apply upd_other.
+  - destruct (snap_loop v f bak r) as [b es] eqn:E. inv H. eauto.
+  - inv H. auto.
+  - destruct (snap_loop v f bak r) as [b es] eqn:E. inv H. eauto.
+Qed.
+
+Lemma snap_loop_ok v f arts : forall bak bak' es,
+  snap_loop v f bak arts = (bak', Some es) ->
+  entries_ok v bak' es (map (fun a => (a_path a, f (a_path a))) arts).
+Proof.
+  induction arts as [|a r IH]; simpl; intros bak bak' es H.
+  - inv H. split; [intros ? []|intros ? ? []].
+  - destruct (f (a_path a)) as [[c m|t|]|] eqn:Ef.
+    + destruct (snap_loop v f (upd bak (a_path a) (Some c)) r) as [b [es'|]] eqn:E; inv H.
+      pose proof (snap_loop_bak _ _ _ _ _ _ E (a_path a)) as Hb.
+      destruct (IH _ _ _ E) as [I1 I2]. split.
+      * intros e [<-|Hin].
+        -- exists (Some (Reg c m)). simpl. split; [left; reflexivity|]. split; [reflexivity|].
+           destruct Hb as [Hb|(c' & m' & Hf & Hb)]; [now rewrite Hb, upd_same|]. congruence.
+        -- destruct (I1 e Hin) as (f0 & Hf0 & Hk). exists f0. split; [now right|assumption].
+      * intros p f0 [Heq|Hin].
+        -- inv Heq. eexists. split; [left; reflexivity|reflexivity].
+        -- destruct (I2 p f0 Hin) as (e & He & Hp). exists e. split; [now right|assumption].
+    + destruct (snap_loop v f bak r) as [b [es'|]] eqn:E; inv H.
+      destruct (IH _ _ _ E) as [I1 I2]. split.
+      * intros e [<-|Hin].
+        -- exists (Some (Sym t)). simpl. split; [left; reflexivity|reflexivity].
+        -- destruct (I1 e Hin) as (f0 & Hf0 & Hk). exists f0. split; [now right|assumption].
+      * intros p f0 [Heq|Hin].
+        -- inv Heq. eexists. split; [left; reflexivity|reflexivity].
+        -- destruct (I2 p f0 Hin) as (e & He & Hp). exists e. split; [now right|assumption].
+    + discriminate.
+    + destruct (snap_loop v f bak r) as [b [es'|]] eqn:E; inv H.
+      destruct (IH _ _ _ E) as [I1 I2]. split.
+      * intros e [<-|Hin].
+        -- exists None. simpl. split; [left; reflexivity|reflexivity].
+        -- destruct (I1 e Hin) as (f0 & Hf0 & Hk). exists f0. split; [now right|assumption].
+      * intros p f0 [Heq|Hin].
+        -- inv Heq. eexists. split; [left; reflexivity|reflexivity].
+        -- destruct (I2 p f0 Hin) as (e & He & Hp). exists e. split; [now right|assumption].
+Qed.
+
+Lemma base_of_functional w arts : functional (base_of w arts).
+Proof.
+  unfold functional, base_of. intros p f f' H1 H2.
+  apply in_map_iff in H1 as (a1 & E1 & _). apply in_map_iff in H2 as (a2 & E2 & _).
+  inv E1. inv E2. congruence.
+Qed.
+
+(* ------------------------------------------------------------------ restore *)
+Definition normf (v : variant) (f : option file) : option file :=
+  match f with Some (Reg c m) => Some (Reg c (rec_mode v m)) | x => x end.
+
+Lemma normf_fixed v f : v_mode_fix v = true -> normf v f = f.
+Proof. intros H. destruct f as [[| |]|]; simpl; unfold rec_mode; rewrite ?H; reflexivity. Qed.
+
+Lemma restore_loop_frame d es : forall w w' b,
+  restore_loop w d es = (w', b) -> frame w' = frame w /\ cur w' = cur w /\ g_inst w' = g_inst w.
+Proof.
+  induction es as [|e r IH]; simpl; intros w w' b H; [inv H; auto|].
+  destruct (e_kind e).
+  - apply IH in H. exact H.
+  - apply IH in H. exact H.
+  - destruct (swap_artifact _ _ _ _) as [w1 ok] eqn:E. apply swap_artifact_frame in E as (E1 & E2 & E3).
+    destruct ok; [apply IH in H as (H1 & H2 & H3); repeat split; congruence|inv H; auto].
+Qed.
+
+Lemma restore_loop_ok v d base : functional base -> forall es w w',
+  (forall e, In e es -> exists f, In (e_path e, f) base /\ kind_matches v (s_bak d) (e_path e) e f) ->
+  restore_loop w d es = (w', true) ->
+  (forall e f, In e es -> In (e_path e, f) base -> fs w' (e_path e) = normf v f) /\
+  (forall p, ~ In p (map e_path es) -> fs w' p = fs w p).
+Proof.
+  intros Hfun. induction es as [|e r IH]; simpl; intros w w' Hes H.
+  - inv H. split; [intros ? ? []|auto].
+  - assert (Hr : forall e0, In e0 r -> exists f, In (e_path e0, f) base /\ kind_matches v (s_bak d) (e_path e0) e0 f)
+      by (intros; apply Hes; now right).
+    destruct (Hes e (or_introl eq_refl)) as (fe & Hfe & Hk).
+    assert (Hstep : exists w1, restore_loop w1 d r = (w', true) /\ fs w1 = upd (fs w) (e_path e) (normf v fe)).
+    { destruct (e_kind e) eqn:Ek.
+      - destruct fe as [[| |]|]; simpl in Hk; rewrite ?Ek in Hk; try discriminate; try tauto.
+        + destruct Hk; discriminate.
+        + eexists. split; [exact H|reflexivity].
+      - destruct fe as [[| |]|]; simpl in Hk; rewrite ?Ek in Hk; try discriminate; try tauto.
+        + destruct Hk; discriminate.
+        + inv Hk. eexists. split; [exact H|reflexivity].
+      - destruct (swap_artifact _ _ _ _) as [w1 ok] eqn:E. destruct ok; [|discriminate].
+        apply swap_artifact_ok in E as (c & mm & Hc & Hm & Hfs & _).
+        destruct fe as [[c0 m0| |]|]; simpl in Hk; rewrite ?Ek in Hk; try discriminate; try tauto.
+        destruct Hk as [Hk1 Hk2]. inv Hk1. simpl in Hm. inv Hm.
+        exists w1. split; [exact H|]. rewrite Hfs. simpl. congruence. }
+    destruct Hstep as (w1 & Hrest & Hfs1).
+    destruct (IH _ _ Hr Hrest) as [I1 I2].
+    split.
+    + intros e0 f0 [<-|Hin] Hb.
+      * assert (f0 = fe) by (eapply Hfun; eauto). subst f0.
+        destruct (in_dec N.eq_dec (e_path e) (map e_path r)) as [Hi|Hni].
+        -- apply in_map_iff in Hi as (e1 & Hp & Hi1). rewrite <- Hp. apply I1; [assumption|]. now rewrite Hp.
+        -- rewrite I2 by assumption. rewrite Hfs1. apply upd_same.
+      * now apply I1.
+    + intros p Hp. rewrite I2 by tauto. rewrite Hfs1. apply upd_other. intros ->. tauto.
+Qed.
+
+(* ------------------------------------------------------------------ the snapshot invariant *)
+Definition snap_ok (v : variant) (w : world) (base : list (path * option file)) (vi : ver) : Prop :=
+  exists d nv es,
+    option_map j_from (jr w) = Some vi /\ snaps w vi = Some d /\ s_meta d = Some (nv, es) /\
+    entries_ok v (s_bak d) es base /\ functional base /\
+    (v_curm_fix v = true -> s_curm d = Some vi).
+
+Definition Inv (v : variant) (w : world) : Prop :=
+  match g_base w with
+  | Some (true, base, _) => exists fr, snap_ok v w base fr
+  | _ => True
+  end.
+
+Lemma snap_ok_frame v w w' base vi : frame w' = frame w -> snap_ok v w base vi -> snap_ok v w' base vi.
+Proof.
+  unfold frame, snap_ok. intros Hf (d & nv & es & H1 & H2 & H3). injection Hf as Ha Hb Hc Hd.
+  exists d, nv, es. rewrite Ha, Hc. auto.
+Qed.
+
+Lemma Inv_frame v w w' : frame w' = frame w -> Inv v w -> Inv v w'.
+Proof.
+  unfold Inv. intros Hf. assert (g_base w' = g_base w) by (unfold frame in Hf; now injection Hf).
+  rewrite H. destruct (g_base w) as [[[[] base] vi]|]; auto. intros [fr Hs]. exists fr. now apply (snap_ok_frame v w w').
+Qed.
+
+(* ------------------------------------------------------------------ rollback *)
+Lemma rollback_frame v F w w' r :
+  rollback_flow v F w = (w', r) -> frame w' = frame w.
+Proof.
+  unfold rollback_flow. intros H.
+  destruct (jr w) as [j|] eqn:Ej; [|now inv H].
+  destruct (snaps w (j_from j)) as [d|]; [|now inv H].
+  destruct (s_meta d) as [[nv es]|]; [|now inv H].
+  destruct (seq_oc _); try (now inv H).
+  destruct (restore_loop _ _ _) as [w2 ok] eqn:Er.
+  apply restore_loop_frame in Er as (Er & _). rewrite frame_set_obst in Er.
+  destruct ok; simpl in H; [|inv H; now rewrite frame_set_phase].
+  destruct (if nv then vpp_seq F 10 else OGo);
+    [destruct (seq_oc _); [destruct (f_hr F)| |]| |];
+    inv H; rewrite ?frame_set_phase, ?frame_restore_ginst, ?frame_restore_curm; assumption.
+Qed.
+
+Lemma rollback_ok_restores v F w w' base vi :
+  snap_ok v w base vi -> rollback_flow v F w = (w', RbOk) ->
+  (forall p f, In (p, f) base -> fs w' p = normf v f) /\
+  (v_curm_fix v = true -> cur w' = vi).
+Proof.
+  intros (d & nv & es & H1 & H2 & H3 & [E1 E2] & Hfun & Hc) H.
+  unfold rollback_flow in H.
+  destruct (jr w) as [j|] eqn:Ej; [|discriminate]. simpl in H1. inv H1.
+  rewrite H2, H3 in H.
+  destruct (seq_oc _); try discriminate.
+  destruct (restore_loop _ _ _) as [w2 ok] eqn:Er.
+  destruct ok; simpl in H; [|discriminate].
+  assert (Hes : forall e, In e (rev es) -> exists f, In (e_path e, f) base /\ kind_matches v (s_bak d) (e_path e) e f)
+    by (intros e He; apply E1; now apply in_rev).
+  destruct (restore_loop_ok v d base Hfun _ _ _ Hes Er) as [R1 _].
+  assert (Hfs : forall p f, In (p, f) base -> fs w2 p = normf v f).
+  { intros p f Hin. destruct (E2 p f Hin) as (e & He & <-). apply R1; [now apply in_rev in He|assumption]. }
+  assert (Hcur : v_curm_fix v = true -> cur (restore_ginst (restore_curm v w2 d)) = j_from j).
+  { intros Hv. unfold restore_curm. rewrite Hv, (Hc Hv). unfold restore_ginst.
+    destruct (g_base _) as [[[[] ?] ?]|]; reflexivity. }
+  destruct (if nv then vpp_seq F 10 else OGo); try discriminate.
+  destruct (seq_oc _); try discriminate.
+  destruct (f_hr F); inv H.
+  rewrite fs_set_phase, fs_restore_ginst, fs_restore_curm, cur_set_phase. auto.
+Qed.
+
+(* ------------------------------------------------------------------ apply *)
+Lemma mon_restored_ok w base vi :
+  g_base w = Some (true, base, vi) -> (forall p f, In (p, f) base -> fs w p = f) -> mon_restored w = MonOk.
+Proof.
+  unfold mon_restored. intros Hg H. rewrite Hg.
+  assert (forallb (fun pf => ofile_eqb (fs w (fst pf)) (snd pf)) base = true) as ->; [|reflexivity].
+  apply forallb_forall. intros [p f] Hin. simpl. rewrite (H p f Hin). apply ofile_eqb_refl.
+Qed.
+
+Lemma gbase_of_frame w w' : frame w' = frame w -> g_base w' = g_base w.
+Proof. unfold frame. intros H. now injection H. Qed.
+
+Lemma auto_rollback_spec v F w w' r base vi :
+  auto_rollback v F w = (w', r) -> snap_ok v w base vi ->
+  frame w' = frame w /\ r <> ROk /\ r <> RErr /\
+  (r = RErrRolledBack -> (forall p f, In (p, f) base -> fs w' p = normf v f) /\
+                         (v_curm_fix v = true -> cur w' = vi)).
+Proof.
+  unfold auto_rollback. intros H Hs.
+  destruct (crash_at F 52); [inv H; split; [reflexivity|]; split; [discriminate|]; split; discriminate|].
+  destruct (rollback_flow v F w) as [w1 rr] eqn:E.
+  pose proof (rollback_frame _ _ _ _ _ E) as Hf.
+  destruct rr; inv H.
+  - split; [assumption|]. split; [discriminate|]. split; [discriminate|].
+    intros _. eapply rollback_ok_restores; eauto.
+  - rewrite frame_set_phase. split; [assumption|]. split; [discriminate|]. split; discriminate.
+  - split; [assumption|]. split; [discriminate|]. split; discriminate.
+Qed.
+
+Lemma snap_ok_prune v w base vi : snap_ok v w base vi -> snap_ok v (prune w vi) base vi.
+Proof.
+  intros (d & nv & es & H1 & H2 & H3). exists d, nv, es. unfold prune. simpl.
+  rewrite N.eqb_refl. auto.
+Qed.
+
+Definition post_ok (v : variant) (T : tarball) (from : ver) (base : list (path * option file))
+           (w7 w' : world) (r : res) : Prop :=
+  Inv v w' /\ g_base w' = g_base w7 /\ r <> RErr /\
+  (r = ROk -> fs w' = fs w7 /\ cur w' = t_to T /\ g_inst w' = t_to T /\
+              option_map j_phase (jr w') = Some PCompleted) /\
+  (r = RErrRolledBack -> (forall p f, In (p, f) base -> fs w' p = normf v f) /\
+                         (v_curm_fix v = true -> cur w' = from)).
+
+Lemma post_swap_spec v T F from w7 w' r base gi :
+  post_swap v T F from w7 = (w', r) ->
+  g_base w7 = Some (true, base, gi) -> snap_ok v w7 base from ->
+  post_ok v T from base w7 w' r.
+Proof.
+  unfold post_swap. intros H Hg Hs.
+  assert (Hinv : forall wx, frame wx = frame w7 -> Inv v wx /\ g_base wx = g_base w7).
+  { intros wx Hf. split; [|now apply gbase_of_frame].
+    unfold Inv. rewrite (gbase_of_frame _ _ Hf), Hg. exists from. eapply snap_ok_frame; eauto. }
+  assert (Hcrash : forall wx, frame wx = frame w7 -> post_ok v T from base w7 wx RCrash).
+  { intros wx Hf. destruct (Hinv wx Hf). unfold post_ok. splits; auto; discriminate. }
+  assert (Hauto : forall wa, frame wa = frame w7 -> auto_rollback v F wa = (w', r) ->
+                             post_ok v T from base w7 w' r).
+  { intros wa Hfa Ha.
+    destruct (auto_rollback_spec v F wa w' r base from Ha) as (A1 & A2 & A3 & A4).
+    { eapply snap_ok_frame; eauto. }
+    destruct (Hinv w') as [I1 I2]; [congruence|].
+    unfold post_ok. splits; auto. intros; contradiction. }
+  destruct (if needs_vpp (t_arts T) then vpp_seq F 0 else OGo).
+  2:{ eapply Hauto; [|exact H]. now rewrite frame_set_phase. }
+  2:{ inv H. now apply Hcrash. }
+  destruct (seq_oc _).
+  2:{ eapply Hauto; [|exact H]. now rewrite frame_set_phase. }
+  2:{ inv H. now apply Hcrash. }
+  destruct (crash_at F 31).
+  { inv H. apply Hcrash, frame_set_phase. }
+  destruct (f_ha F); simpl in H.
+  2:{ destruct (crash_at F 53).
+      - inv H. apply Hcrash, frame_set_phase.
+      - eapply Hauto; [|exact H]. now rewrite !frame_set_phase. }
+  destruct (crash_at F 32).
+  { inv H. apply Hcrash, frame_set_phase. }
+  set (w9 := set_phase (set_ginst (set_cur (set_phase w7 PDaemonStarted) (t_to T)) (t_to T)) PCompleted) in *.
+  assert (F9 : frame w9 = frame w7).
+  { unfold w9. rewrite frame_set_phase, frame_set_ginst, frame_set_cur, frame_set_phase. reflexivity. }
+  assert (P9 : option_map j_phase (jr w9) = Some PCompleted).
+  { destruct Hs as (d & nv & es & H1 & _). unfold w9, set_phase at 1. simpl.
+    destruct (jr (set_phase w7 PDaemonStarted)) eqn:Ej; [reflexivity|].
+    unfold set_phase in Ej. destruct (jr w7); simpl in *; discriminate. }
+  destruct (crash_at F 33).
+  { inv H. now apply Hcrash. }
+  assert (G10 : g_base (prune w9 from) = g_base w7).
+  { unfold prune; simpl. now apply gbase_of_frame. }
+  assert (I10 : Inv v (prune w9 from)).
+  { unfold Inv. rewrite G10, Hg. exists from. apply snap_ok_prune. eapply snap_ok_frame; eauto. }
+  assert (Hfs : fs (prune w9 from) = fs w7).
+  { unfold prune, w9. simpl. rewrite fs_set_phase. simpl. apply fs_set_phase. }
+  destruct (crash_at F 34); inv H; unfold post_ok; splits; auto; try discriminate.
+  intros _. splits; auto.
+  - unfold prune, w9. simpl. rewrite cur_set_phase. reflexivity.
+  - unfold prune, w9. simpl. rewrite ginst_set_phase. reflexivity.
+Qed.
+
+Lemma do_snapshot_spec v w from arts w1 ok :
+  do_snapshot v w from arts = (w1, ok) ->
+  jr w1 = jr w /\ fs w1 = fs w /\ cur w1 = cur w /\ obst w1 = obst w /\ g_inst w1 = g_inst w /\
+  g_base w1 = g_base w /\
+  (ok = true -> exists d nv es, snaps w1 from = Some d /\ s_meta d = Some (nv, es) /\
+                 entries_ok v (s_bak d) es (base_of w arts) /\
+                 (v_curm_fix v = true -> s_curm d = Some (cur w))).
+Proof.
+  unfold do_snapshot. intros H.
+  destruct (snap_loop _ _ _ _) as [b [l|]] eqn:E; inv H; splits; try reflexivity; try discriminate.
+  intros _. simpl. rewrite upd_same. do 3 eexists. splits; try reflexivity.
+  - simpl. eapply snap_loop_ok. exact E.
+  - simpl. intros ->. reflexivity.
+Qed.
+
+Definition apply_post (v : variant) (T : tarball) (w w' : world) (r : res) : Prop :=
+  Inv v w' /\
+  (r = ROk -> (forall a, In a (t_arts T) -> exists mm, new_mode (a_mode a) = Some mm /\
+                          fs w' (a_path a) = Some (Reg (a_content a) mm)) /\
+              cur w' = t_to T /\ g_inst w' = t_to T /\
+              option_map j_phase (jr w') = Some PCompleted) /\
+  (r = RErrRolledBack -> (exists gi, g_base w' = Some (true, base_of w (t_arts T), gi)) /\
+                         (forall p f, In (p, f) (base_of w (t_arts T)) -> fs w' p = normf v f) /\
+                         (v_curm_fix v = true -> cur w' = cur w)) /\
+  (r = RErr -> fs w' = fs w /\ cur w' = cur w) /\
+  (forall b gi, g_base w' = Some (true, b, gi) -> b = base_of w (t_arts T)).
+
+Lemma apply_flow_spec v T F w w' r :
+  apply_flow v T F w = (w', r) -> NoDup (map a_path (t_arts T)) -> apply_post v T w w' r.
+Proof.
+  unfold apply_flow. intros H Hnd.
+  set (base := base_of w (t_arts T)) in *.
+  set (w0 := set_gbase _ _) in H.
+  assert (Htriv : forall wx rr, g_base wx = Some (false, base, g_inst w) -> rr = RCrash \/ (rr = RErr /\ fs wx = fs w /\ cur wx = cur w) ->
+                                apply_post v T w wx rr).
+  { intros wx rr Hg Hr. unfold apply_post, Inv. rewrite Hg. splits; auto.
+    - intros ->. destruct Hr as [|[? _]]; discriminate.
+    - intros ->. destruct Hr as [|[? _]]; discriminate.
+    - intros ->. destruct Hr as [|[_ ?]]; [discriminate|assumption].
+    - intros b gi Hb. try rewrite Hg in Hb. discriminate. }
+  destruct (crash_at F 25); [inv H; apply Htriv; auto|].
+  destruct (do_snapshot v w0 (cur w) (t_arts T)) as [w1 ok] eqn:Es.
+  apply do_snapshot_spec in Es as (S1 & S2 & S3 & S4 & S5 & S6 & S7).
+  destruct ok; simpl in H.
+  2:{ inv H. apply Htriv; [rewrite S6; reflexivity|right; splits; auto]. }
+  destruct (S7 eq_refl) as (d & nv & es & D1 & D2 & D3 & D4). clear S7.
+  set (w2 := set_phase (set_gbase w1 _) PSnapshotDone) in H.
+  assert (Hs2 : snap_ok v w2 base (cur w)).
+  { exists d, nv, es. unfold w2. splits.
+    - unfold set_phase. simpl. rewrite S1. reflexivity.
+    - unfold set_phase. simpl. rewrite S1. simpl. exact D1.
+    - exact D2.
+    - exact D3.
+    - apply base_of_functional.
+    - exact D4. }
+  assert (Hg2 : g_base w2 = Some (true, base, g_inst w)).
+  { unfold w2, set_phase. simpl. rewrite S1. reflexivity. }
+  assert (Hfs2 : fs w2 = fs w /\ cur w2 = cur w).
+  { unfold w2. rewrite fs_set_phase, cur_set_phase. simpl. split; assumption. }
+  assert (Hmid : forall wx rr, frame wx = frame w2 -> rr = RCrash \/ (rr = RErr /\ fs wx = fs w /\ cur wx = cur w) ->
+                               apply_post v T w wx rr).
+  { intros wx rr Hf Hr. unfold apply_post, Inv. rewrite (gbase_of_frame _ _ Hf), Hg2. splits.
+    - exists (cur w). eapply snap_ok_frame; eauto.
+    - intros ->. destruct Hr as [|[? _]]; discriminate.
+    - intros ->. destruct Hr as [|[? _]]; discriminate.
+    - intros ->. destruct Hr as [|[_ ?]]; [discriminate|assumption].
+    - intros b gi Hb. try rewrite (gbase_of_frame _ _ Hf), Hg2 in Hb. now inv Hb. }
+  destruct Hfs2 as [Hfs2 Hcur2].
+  destruct (crash_at F 26); [inv H; apply Hmid; auto|].
+  destruct (t_hook_ok T); simpl in H; [|inv H; apply Hmid; auto].
+  destruct (seq_oc _);
+    [|inv H; apply Hmid; [apply frame_set_phase|right; rewrite fs_set_phase, cur_set_phase; auto]
+     |inv H; apply Hmid; [apply frame_set_phase|auto]].
+  destruct (seq_oc _);
+    [|inv H; apply Hmid; [now rewrite !frame_set_phase|right; rewrite !fs_set_phase, !cur_set_phase; auto]
+     |inv H; apply Hmid; [now rewrite !frame_set_phase|auto]].
+  destruct (crash_at F 29); [inv H; apply Hmid; [now rewrite !frame_set_phase|auto]|].
+  destruct (swap_loop _ _) as [w7 sok] eqn:Esw.
+  pose proof (swap_loop_frame _ _ _ _ Esw) as (F7 & C7 & G7).
+  rewrite frame_set_obst, !frame_set_phase in F7.
+  destruct sok; simpl in H.
+  - apply swap_loop_ok in Esw as [Sw1 Sw2]; [|assumption].
+    apply (post_swap_spec v T F (cur w) w7 w' r base (g_inst w)) in H.
+    + destruct H as (P1 & P2 & P3 & P4 & P5). unfold apply_post. splits; auto.
+      * intros Hr. destruct (P4 Hr) as (Q1 & Q2 & Q3 & Q4). splits; auto.
+        intros a Ha. rewrite Q1. now apply Sw1.
+      * intros Hr. destruct (P5 Hr) as (Q1 & Q2). splits; auto.
+        exists (g_inst w). rewrite P2, (gbase_of_frame _ _ F7). exact Hg2.
+      * intros Hr. contradiction.
+      * intros b gi Hb. rewrite P2, (gbase_of_frame _ _ F7), Hg2 in Hb. now inv Hb.
+    + rewrite (gbase_of_frame _ _ F7). exact Hg2.
+    + eapply snap_ok_frame; eauto.
+  - destruct (crash_at F 51); [inv H; apply Hmid; auto|].
+    destruct (auto_rollback_spec v F _ w' r base (cur w) H) as (A1 & A2 & A3 & A4).
+    { eapply snap_ok_frame; [|exact Hs2]. now rewrite frame_set_phase. }
+    rewrite frame_set_phase in A1.
+    unfold apply_post, Inv. rewrite (gbase_of_frame _ _ A1), (gbase_of_frame _ _ F7), Hg2. splits.
+    + exists (cur w). eapply snap_ok_frame; [|exact Hs2]. congruence.
+    + intros Hr; contradiction.
+    + intros Hr. destruct (A4 Hr). splits; eauto.
+    + intros Hr; contradiction.
+    + intros b gi Hb. now inv Hb.
+Qed.
+
+(* ------------------------------------------------------------------ steps and histories *)
+Lemma admit_nodup T Q w : admit T Q w = true -> NoDup (map a_path (t_arts T)).
+Proof.
+  unfold admit. intros H. repeat (apply andb_prop in H as [H ?]). now apply nodupb_NoDup.
+Qed.
+
+Lemma apply_spec v T Q F w w' r :
+  apply v T Q F w = (w', r) -> Inv v w ->
+  Inv v w' /\ (admit T Q w = false -> w' = w /\ r = RErr) /\ (admit T Q w = true -> apply_post v T w w' r).
+Proof.
+  unfold apply. intros H Hi. destruct (admit T Q w) eqn:Ea.
+  - pose proof (apply_flow_spec _ _ _ _ _ _ H (admit_nodup _ _ _ Ea)) as Hp.
+    splits; [apply Hp|discriminate|auto].
+  - inv H. splits; auto. discriminate.
+Qed.
+
+Lemma mon_new_ok w arts :
+  (forall a, In a arts -> exists mm, new_mode (a_mode a) = Some mm /\ fs w (a_path a) = Some (Reg (a_content a) mm)) ->
+  mon_new w arts = MonOk.
+Proof.
+  intros H. unfold mon_new.
+  assert (forallb (art_installed w) arts = true) as ->; [|reflexivity].
+  apply forallb_forall. intros a Ha. destruct (H a Ha) as (mm & Hm & Hf).
+  unfold art_installed. rewrite Hm, Hf. apply ofile_eqb_refl.
+Qed.
+
+Lemma rollback_step_spec v F w w' r :
+  rollback_flow v F w = (w', r) -> Inv v w -> v_mode_fix v = true ->
+  Inv v w' /\ g_base w' = g_base w /\
+  (r = RbOk -> mon_restored w' <> MonMixed /\
+               forall b gi, g_base w = Some (true, b, gi) -> forall p f, In (p, f) b -> fs w' p = f).
+Proof.
+  intros H Hi Hv. pose proof (rollback_frame _ _ _ _ _ H) as Hf.
+  splits; [eapply Inv_frame; eauto|now apply gbase_of_frame|].
+  intros ->. unfold Inv in Hi.
+  destruct (g_base w) as [[[[] b] gi]|] eqn:Eg.
+  - destruct Hi as [fr Hs]. destruct (rollback_ok_restores _ _ _ _ _ _ Hs H) as [R1 _].
+    assert (R : forall p f, In (p, f) b -> fs w' p = f).
+    { intros p f Hin. rewrite (R1 p f Hin). now apply normf_fixed. }
+    split.
+    + erewrite mon_restored_ok; [discriminate| |exact R]. rewrite (gbase_of_frame _ _ Hf). exact Eg.
+    + intros b0 gi0 Hb. inv Hb. exact R.
+  - split; [|discriminate]. unfold mon_restored. rewrite (gbase_of_frame _ _ Hf), Eg. discriminate.
+  - split; [|discriminate]. unfold mon_restored. rewrite (gbase_of_frame _ _ Hf), Eg. discriminate.
+Qed.
+
+Lemma step_spec v w o w' r m :
+  step v w o = (w', (r, m)) -> Inv v w -> v_mode_fix v = true -> Inv v w' /\ m <> MonMixed.
+Proof.
+  intros H Hi Hv. destruct o as [T Q F|F| |p f]; simpl in H.
+  - destruct (apply v T Q F w) as [w1 r1] eqn:Ea. inv H.
+    destruct (apply_spec _ _ _ _ _ _ _ Ea Hi) as (I1 & I2 & I3). split; [assumption|].
+    destruct (admit T Q w) eqn:Ead.
+    + destruct (I3 eq_refl) as (P1 & P2 & P3 & P4 & P5).
+      destruct r; try discriminate.
+      * destruct (P2 eq_refl) as (Q1 & _). rewrite mon_new_ok; [discriminate|assumption].
+      * destruct (P3 eq_refl) as ([gi Q1] & Q2 & _).
+        erewrite mon_restored_ok; [discriminate|exact Q1|].
+        intros p f Hin. rewrite (Q2 p f Hin). now apply normf_fixed.
+    + destruct (I2 eq_refl) as [_ ->]. discriminate.
+  - destruct (rollback_flow v F w) as [w1 rr] eqn:Er.
+    destruct (rollback_step_spec _ _ _ _ _ Er Hi Hv) as (R1 & R2 & R3).
+    destruct rr; inv H; split; auto; try discriminate. now apply R3.
+  - inv H. split; [|discriminate]. eapply Inv_frame; [|exact Hi]. reflexivity.
+  - inv H. split; [|discriminate]. eapply Inv_frame; [|exact Hi]. reflexivity.
+Qed.
+
+Lemma run_never_mixed v : v_mode_fix v = true -> forall ops w, Inv v w ->
+  forall w' r m, In (w', (r, m)) (run v w ops) -> m <> MonMixed.
+Proof.
+  intros Hv. induction ops as [|o ops IH]; simpl; intros w Hi w' r m Hin; [contradiction|].
+  destruct (step v w o) as [w1 [r1 m1]] eqn:Es.
+  destruct (step_spec _ _ _ _ _ _ Es Hi Hv) as [I1 M1].
+  destruct Hin as [Heq|Hin]; [inv Heq; assumption|eauto].
+Qed.
+
+Lemma Inv_init v c f : Inv v (init_world c f).
+Proof. exact I. Qed.
+
+(* only rollbacks and obstacle removal: the operator is trying to get back *)
+Definition rb_only (ops : list op) : Prop :=
+  Forall (fun o => match o with OpRollback _ | OpClear => True | _ => False end) ops.
+
+Lemma rb_only_restores v : v_mode_fix v = true -> forall ops w b gi,
+  rb_only ops -> Inv v w -> g_base w = Some (true, b, gi) ->
+  forall w' r m, In (w', (r, m)) (run v w ops) -> r = RRbOk ->
+  forall p f, In (p, f) b -> fs w' p = f.
+Proof.
+  intros Hv. induction ops as [|o ops IH]; simpl; intros w b gi Hrb Hi Hg w' r m Hin Hr; [contradiction|].
+  inv Hrb. destruct (step v w o) as [w1 [r1 m1]] eqn:Es.
+  assert (Hnext : Inv v w1 /\ g_base w1 = Some (true, b, gi) /\ (r1 = RRbOk -> forall p f, In (p, f) b -> fs w1 p = f)).
+  { destruct o as [T Q F|F| |p0 f0]; try contradiction; simpl in Es.
+    - destruct (rollback_flow v F w) as [w2 rr] eqn:Er.
+      destruct (rollback_step_spec _ _ _ _ _ Er Hi Hv) as (R1 & R2 & R3).
+      destruct rr; inv Es; splits; auto; try congruence; try discriminate.
+      intros _. destruct (R3 eq_refl) as [_ R4]. eapply R4; eauto.
+    - inv Es. splits; auto; try discriminate. }
+  destruct Hnext as (N1 & N2 & N3).
+  destruct Hin as [Heq|Hin]; [inv Heq; auto|eauto].
+Qed.
+
+Theorem crash_then_rollback_restores v T Q F w w1 r1 b gi :
+  v_mode_fix v = true ->
+  apply v T Q F w = (w1, r1) -> admit T Q w = true ->
+  g_base w1 = Some (true, b, gi) ->
+  forall ops, rb_only ops ->
+  forall w' r m, In (w', (r, m)) (run v w1 ops) -> r = RRbOk ->
+  forall a, In a (t_arts T) -> fs w' (a_path a) = fs w (a_path a).
+Proof.
+  intros Hv Ha Had Hg ops Hrb w' r m Hin Hr a Hia.
+  unfold apply in Ha. rewrite Had in Ha.
+  destruct (apply_flow_spec _ _ _ _ _ _ Ha (admit_nodup _ _ _ Had)) as (P1 & _ & _ & _ & P5).
+  pose proof (P5 _ _ Hg) as ->.
+  eapply (rb_only_restores v Hv ops w1 _ gi Hrb P1 Hg w' r m Hin Hr).
+  unfold base_of. apply in_map_iff. exists a. split; [reflexivity|assumption].
+Qed.
+
+(* ------------------------------------------------------------------ headline statements *)
+Lemma no_mixed_success v T Q F w w' :
+  apply v T Q F w = (w', ROk) ->
+  (forall a, In a (t_arts T) -> exists mm, new_mode (a_mode a) = Some mm /\
+                                  fs w' (a_path a) = Some (Reg (a_content a) mm)) /\
+  cur w' = t_to T /\ option_map j_phase (jr w') = Some PCompleted.
+Proof.
+  intros H. unfold apply in H. destruct (admit T Q w) eqn:Ea; [|discriminate].
+  destruct (apply_flow_spec _ _ _ _ _ _ H (admit_nodup _ _ _ Ea)) as (_ & P2 & _).
+  destruct (P2 eq_refl) as (Q1 & Q2 & _ & Q4). auto.
+Qed.
+
+Lemma failed_apply_restored v T Q F w w' :
+  v_mode_fix v = true ->
+  apply v T Q F w = (w', RErrRolledBack) ->
+  forall a, In a (t_arts T) -> fs w' (a_path a) = fs w (a_path a).
+Proof.
+  intros Hv H a Ha. unfold apply in H. destruct (admit T Q w) eqn:Ea; [|discriminate].
+  destruct (apply_flow_spec _ _ _ _ _ _ H (admit_nodup _ _ _ Ea)) as (_ & _ & P3 & _).
+  destruct (P3 eq_refl) as (_ & Q2 & _).
+  rewrite (Q2 (a_path a) (fs w (a_path a))); [now apply normf_fixed|].
+  unfold base_of. apply in_map_iff. exists a. auto.
+Qed.
+
+Lemma early_error_untouched v T Q F w w' :
+  apply v T Q F w = (w', RErr) -> fs w' = fs w /\ cur w' = cur w.
+Proof.
+  intros H. unfold apply in H. destruct (admit T Q w) eqn:Ea; [|inv H; auto].
+  destruct (apply_flow_spec _ _ _ _ _ _ H (admit_nodup _ _ _ Ea)) as (_ & _ & _ & P4 & _). auto.
+Qed.
+
+Definition inadmissible (T : tarball) (w : world) : Prop :=
+  t_sig_ok T = false \/ t_digest_ok T = false \/ t_members_ok T = false \/
+  (exists pv wf, t_prev T = Prev pv wf /\ (wf = false \/ pv <> cur w)).
+
+Lemma admission_before_mutation v T Q F w :
+  inadmissible T w -> apply v T Q F w = (w, RErr).
+Proof.
+  intros H. unfold apply. assert (admit T Q w = false) as ->; [|reflexivity].
+  unfold admit. destruct H as [H|[H|[H|(pv & wf & Hp & H)]]].
+  - rewrite H. now rewrite !andb_false_r.
+  - rewrite H. now rewrite !andb_false_r.
+  - rewrite H. reflexivity.
+  - unfold prev_ok. rewrite Hp. destruct H as [->|H].
+    + simpl. now rewrite !andb_false_r.
+    + apply N.eqb_neq in H. rewrite H. now rewrite !andb_false_r.
+Qed.
+
+Lemma monitor_never_mixed c f ops w' r m :
+  In (w', (r, m)) (run repaired (init_world c f) ops) -> m <> MonMixed.
+Proof. apply (run_never_mixed repaired eq_refl ops _ (Inv_init _ _ _)). Qed.
